@@ -365,7 +365,7 @@ theorem lift_apply {c : PTChain} (h : ∀ l ∈ c.levels, P l) (op : PTChain.Op)
             · intro x hx
               simp only [PTChain.setBetas, List.mem_map] at hx
               obtain ⟨⟨l, b⟩, hmem, rfl⟩ := hx
-              exact hβ l b (h3 l (List.of_mem_zip hmem).1)
+              exact hβ l _ (h3 l (List.of_mem_zip hmem).1)
             · exact h3
           · simp at hs
         · simp [pure] at hs; subst hs; exact hls
